@@ -27,6 +27,45 @@ def structured(rng):
     return out
 
 
+ROACH = [os.path.join(vlib.HARNESS, "root", "common_test.go"), os.path.join(vlib.HARNESS, "root", "roach_test.go")]
+
+
+def roach_stage(ctx, q):
+    """The ROACH path (roach.go is one of C12's anchors): a scripted device sends packets over localhost UDP to a real
+    RoachDevice; bundling into blocks is a matter of timing.  Per channel, (what was sent, what came out of the blocks)
+    joins the unwrap trace, with a fresh unwrapper fed in one call as the split-independence reference.  Framing
+    (frame numbers, block shapes) is validated by RoachTrace.tla as observations: no listed property speaks about it."""
+    import re
+    for cfg in ("RoachMC.cfg", "RoachMC3.cfg", "RoachDesignLoss.cfg") + (() if q else ("RoachMCBig.cfg",)):
+        r = vlib.run_tlc(ctx, "RoachIngest", cfg, workers=8, timeout=900)
+        if not r.ok:
+            raise vlib.MachineryError("RoachIngest %s: %s" % (cfg, r.violated))
+    r = vlib.run_tlc(ctx, "RoachIngest", "RoachAsCodeLoss.cfg", workers=4, timeout=600)
+    ctx.notes["roach_model_as_code_with_loss"] = {"violated": r.violated, "meaning": "named deviation FirstPacketOnly: a loss inside a bundle is neither reported nor reflected in frame numbers (design observation outside the listed properties)"}
+    tp = ctx.path("roach.ndjson")
+    rc, out = vlib.go_test(ctx, "", ROACH, "TestVerifRoach$", env={"VERIF_OUT": tp, "VERIF_NRANDOM": 12 if q else 60}, timeout=1500)
+    if rc != 0:
+        raise vlib.MachineryError("roach driver failed:\n" + out[-3000:])
+    ev = vlib.read_ndjson(tp)
+    if any(e["ev"] == "RoachSkip" for e in ev):
+        ctx.notes["roach_skipped_scenarios"] = sum(1 for e in ev if e["ev"] == "RoachSkip")
+    ro = [e for e in ev if e["ev"].startswith("Roach")]
+    if not any(e["ev"] == "RoachBlock" for e in ro):
+        raise vlib.MachineryError("roach driver produced no block")
+    rp = ctx.path("roach_blocks.ndjson")
+    vlib.write_ndjson(rp, ro)
+    vlib.validate_trace(ctx, "RoachTrace", "RoachTrace.cfg", rp, timeout=600)
+    obs = re.findall(r'^<<"OBS", (\d+), "([^"]+)", (\d+)>>$', ctx.last_tlc_out, re.M)
+    cnt = {}
+    for _, pred, _ in obs:
+        cnt[pred] = cnt.get(pred, 0) + 1
+    ctx.notes["roach_framing_observations"] = cnt or "none"
+    for pred, n in sorted(cnt.items()):
+        if not pred.startswith("DEV_"):
+            print("OBSERVATION (ROACH framing, outside the listed properties): %s x%d" % (pred, n))
+    return [e for e in ev if not e["ev"].startswith("Roach")]
+
+
 def run(ctx):
     q = ctx.quick()
     for cfg in ("PhaseUnwrapMC1.cfg", "PhaseUnwrapMC2.cfg", "PhaseUnwrapMC3.cfg", "PhaseUnwrapMC4.cfg"):
@@ -42,8 +81,9 @@ def run(ctx):
     rc, out = vlib.go_test(ctx, "", HARNESS, "TestVerifPhase$", env={"VERIF_SCEN": sp, "VERIF_OUT": tp, "VERIF_NRANDOM": nrandom}, timeout=1200)
     if rc != 0:
         raise vlib.MachineryError("phase driver failed:\n" + out[-3000:])
+    events = vlib.read_ndjson(tp) + roach_stage(ctx, q)
+    vlib.write_ndjson(tp, events)
     viols, done = vlib.validate_trace(ctx, "PhaseUnwrapTrace", "PhaseUnwrapTrace.cfg", tp, heap="16g", timeout=2400, xss=True)
-    events = vlib.read_ndjson(tp)
     scs, cur = [], None
     for i, e in enumerate(events):
         if e["ev"] == "Config":
@@ -59,6 +99,8 @@ def run(ctx):
             i_ = runs[0]["inp"]
             offs = {(o[k] - ((i_[k] if not s["cfg"]["invert"] else 65535 - i_[k]) % (1 << s["cfg"]["frac"]) >> s["cfg"]["drop"])) % 65536 for k in range(len(o))}
             wraps = len(offs)
+        if s["cfg"].get("origin") == "roach":
+            ctx.notes["roach_channel_streams"] = ctx.notes.get("roach_channel_streams", 0) + 1
         vlib.add_case(ctx, [s["cfg"]["frac"], s["cfg"]["drop"], s["cfg"]["bias"], s["cfg"]["resetafter"], s["cfg"]["invert"], runs[0]["inp"] if runs else []],
                       nontrivial=wraps > 1)
     ctx.samples = [{"params": {k: s["cfg"][k] for k in ("frac", "drop", "enable", "bias", "resetafter", "pulsepos", "invert")},
@@ -70,6 +112,8 @@ def run(ctx):
         s = [x for x in scs if x["first"] <= v["line"]][-1]
         e = s["events"][v["line"] - s["first"]]
         sig = {"predicate": v["predicate"], "enable": s["cfg"]["enable"], "invert": s["cfg"]["invert"]}
+        if s["cfg"].get("origin") == "roach":
+            sig["via"] = "roach"
         vlib.report_violation(ctx, sig, {"config": s["cfg"], "run": {k: (e[k] if k == "split" else e[k][:300]) for k in ("split", "inp", "out") if k in e}})
     return vlib.finish(ctx, LEVEL,
                        "case = (option set, 16-bit input sequence, splits into calls); distinct by hash; non-trivial = the output used at least two different offsets (a wrap was removed or a reset happened)",
